@@ -208,7 +208,7 @@ func (rc *BrokerRowProtoConverter) deDupTags(m *protoMetricsV1.Metric) {
 	if len(kvs) < 2 {
 		return
 	}
-	sort.Sort(kvs)
+	sort.Stable(kvs)
 	// tags with same key will keep order as they are appended after sorting
 	// high index key has higher priority
 	// use 2-pointer algorithm
